@@ -134,7 +134,9 @@ func (r *lrun) exec(st *k.Step) {
 		return // the fake clock cannot move while the loop polls
 	}
 	switch st.Op {
-	case "submit":
+	case "submit", "submit_shutdown":
+		// submit_shutdown: shutdown is requested right after the submission, before the loop has
+		// had a chance to look at it (the request has been accepted, it must still be answered)
 		for i := 0; i < st.N; i++ {
 			q := &lreq{idx: len(r.reqs), afterShut: r.shut}
 			r.reqs = append(r.reqs, q)
@@ -158,7 +160,15 @@ func (r *lrun) exec(st *k.Step) {
 					q.beforeReturn = !r.returned
 				}})
 		}
-		r.logf("submit %d", st.N)
+		r.logf("%s %d", st.Op, st.N)
+		if st.Op == "submit_shutdown" && !r.shut {
+			r.shut = true
+			r.sys.Shutdown()
+			r.logf("shutdown")
+			r.settle()
+			r.checkReturned()
+			break
+		}
 		r.settle()
 	case "complete":
 		n := st.N
@@ -349,8 +359,10 @@ func runLoopBubble(t *testing.T, plan *k.Plan, rng *rand.Rand, verbose bool, res
 					st = k.Step{Op: "sleep", Dt: pick(rng, []int64{0, 1, cfg.SignalMs / 2, cfg.SignalMs, 3 * cfg.SignalMs})}
 				case x < 93:
 					st = k.Step{Op: "cap", N: pick(rng, []int{0, 1, 2, 100})}
-				case x < 97:
+				case x < 95:
 					st = k.Step{Op: "shutdown"}
+				case x < 97:
+					st = k.Step{Op: "submit_shutdown", N: 1 + rng.Intn(3)}
 				default:
 					st = k.Step{Op: "submit", N: 8 + rng.Intn(8)}
 				}
